@@ -767,7 +767,11 @@ func (fr *Frame) makeInterface(in *ssa.MakeInterface) *GVal {
 	it := in.Type()
 	isErr := ex.p.w.SortOf(it) == SErr
 	t := fr.toIface(xv, in.X.Type(), isErr, in.Pos())
-	return &GVal{T: t, Typ: it}
+	g := &GVal{T: t, Typ: it}
+	if xv.Ptr != nil && xv.T == nil {
+		g.Ptr = xv.Ptr // remembered for stdlib functions that write through an interface-wrapped pointer
+	}
+	return g
 }
 
 func (fr *Frame) toIface(xv *GVal, xt types.Type, isErr bool, pos token.Pos) *Term {
